@@ -91,6 +91,18 @@ def DefaultVal.render : DefaultVal → String × List Int
 def defaultsTable : List (String × String × List Int) :=
   StatType.all.map fun s => (s.name, (defaultOf s).render)
 
+/-! ## sorting (structural insertion sort, so that closed instances evaluate by `decide`) -/
+
+/-- insert `x` before the first element it is `le` to -/
+def insertBy {γ : Type} (le : γ → γ → Bool) (x : γ) : List γ → List γ
+  | [] => [x]
+  | y :: ys => if le x y then x :: y :: ys else y :: insertBy le x ys
+
+/-- insertion sort by `le` -/
+def isort {γ : Type} (le : γ → γ → Bool) : List γ → List γ
+  | [] => []
+  | x :: xs => insertBy le x (isort le xs)
+
 /-! ## generic scalar layer: mean, population variance, quantiles -/
 
 section Scalar
@@ -127,8 +139,8 @@ def variance (xs : List α) : α :=
 
 def leB (a b : α) : Bool := decide (a ≤ b)
 
-/-- ascending sort (stable merge sort of core Lean). -/
-def sortAsc (xs : List α) : List α := xs.mergeSort leB
+/-- ascending sort -/
+def sortAsc (xs : List α) : List α := isort leB xs
 
 /-- `np.quantile(xs, k/4)` with the default linear interpolation, on an already **sorted** list:
     virtual index `(n-1)·k/4`, lower neighbour `⌊·⌋`, upper neighbour clipped to `n-1`,
@@ -205,11 +217,11 @@ def nonIncreasing : List Nat → Bool
 
 /-- `ser.dropna().value_counts(ascending=False)`: every distinct non-missing value with its number of
     occurrences, by non-increasing count.  (The order *among equal counts* is pandas' and is not part of
-    the property; the model uses a stable sort of its own enumeration.) -/
+    the property; the model sorts its own enumeration.) -/
 def valueCounts (cells : List (Option β)) : List (β × Nat) :=
   let vals := cells.filterMap id
   let pairs := (distinct vals).map fun v => (v, vals.count v)
-  pairs.mergeSort fun a b => decide (b.2 ≤ a.2)
+  isort (fun a b => decide (b.2 ≤ a.2)) pairs
 
 /-- number of cells equal to `v` — the definition the property refers to. -/
 def occurrences (cells : List (Option β)) (v : β) : Nat := (cells.filter fun c => c = some v).length
@@ -319,7 +331,7 @@ def maxInt : List Int → Int
 
 /-- `ser.sort_values().dropna()`: the non-missing times in ascending order -/
 def sortedTimes (cells : List (Option Int)) : List Int :=
-  (cells.filterMap id).mergeSort fun a b => decide (a ≤ b)
+  isort (fun a b => decide (a ≤ b)) (cells.filterMap id)
 
 /-- `compute_col_stats(ser, stype.timestamp)`; a cell is `none` when missing **or unparseable**
     (`errors='coerce'`).  All-null → defaults; else `sort_values`, `dropna`, then
